@@ -43,7 +43,7 @@ def attr_pair(mode, base):
 
 
 VALUE_MODES = ["same", "disjoint", "overlap", "src_empty", "dest_empty", "text_convertible", "unconvertible",
-               "float_to_int", "int_to_string", "multiline", "dates", "unconvertible_dest_empty"]
+               "float_to_int", "int_to_string", "multiline", "dates", "unconvertible_dest_empty", "tuples"]
 
 
 def values_for(mode):
@@ -62,6 +62,8 @@ def values_for(mode):
         return "int", [1], "string", ["2", "7"], True
     if mode == "unconvertible":
         return "int", [1], "string", ["abc"], False
+    if mode == "tuples":
+        return "2-tuple", ["(1;2)"], "2-tuple", ["(1;2)", "(3;4)"], True
     if mode == "unconvertible_dest_empty":
         return "int", [], "string", ["abc"], False
     if mode == "float_to_int":
@@ -77,6 +79,8 @@ def values_for(mode):
 
 def convert(v, dest_dtype):
     import datetime as dt
+    if dest_dtype.endswith("-tuple"):
+        return v if isinstance(v, list) else [x.strip() for x in v.strip()[1:-1].split(";")]
     if dest_dtype == "int":
         return int(float(v))
     if dest_dtype == "string":
